@@ -67,7 +67,7 @@ def main(ctx: Ctx):
         'E-S1: a pipe delivers EOF once every writer closed it / died; a queue.Queue (thread kinds) has no EOF - probed by the blocked-consumer runs',
         'E-L1/E-L2 as in C01; Stream.lean phases (beforeCall / inTarget / beforeBump / beforeSend) are the line events of the generated loop bodies',
     ]
-    ctx.cov['rule'] = ('three persistent kinds, two items enqueued then close: real terminate() at every line event after start-up (threads also hook-raised), SIGKILL at every line event (process, remote); '
+    ctx.cov['rule'] = ('three persistent kinds, two items enqueued then close (plus sampled landing points for 0 and 5 items; thorough: 0, 1, 3, 5, 8): real terminate() at every line event after start-up (threads also hook-raised), SIGKILL at every line event (process, remote); '
                        'a consumer thread is blocked in results_iter() before the event; plus target exception in the k-th item, pool-style reader on a raw Pipe; '
                        'non-trivial = an event was injected; distinct by (program, k, mode)')
     meta = landing.regenerate(ctx)
@@ -81,7 +81,10 @@ def main(ctx: Ctx):
     per = None if T else {'thread': 10 ** 6, 'process': 14, 'remote': 10}
     cases, _ = landing.plan(ctx, meta, progs, ['r'], ['raise', 'terminate', 'kill'], per_prog=per)
     recs = landing.run_cases(ctx, cases)
-    def evaluate(c, rec):
+    def expected_for(n):
+        return [12] + [(i + 2) ** 2 for i in range(1, n)] if n else []
+
+    def evaluate(c, rec, EXPECTED=EXPECTED):
         r = rec['real']
         kind = inject.KINDS[rec['prog']][2]
         landing.correspond(c, rec)
@@ -105,6 +108,18 @@ def main(ctx: Ctx):
         ctx.case((rec['prog'], rec['k'], rec['mode']), rec['k'] is not None, sample=landing.describe(rec) if i % 47 == 0 else None)
         ctx.count(f'{kind}:{rec["mode"]}')
         landing.judge(ctx, rec, evaluate)
+    # ---- other numbers of items (the unbounded theorems C06_generated_unbounded_* quantify over the number of items and the
+    # landing point: the model is compared with the code beyond the two items of the finite tables)
+    for n in ((0, 1, 3, 5, 8) if T else (0, 5)):
+        per_n = {'thread': 8, 'process': 8, 'remote': 6} if T else {'thread': 3, 'process': 3, 'remote': 2}
+        cases_n, _ = landing.plan(ctx, meta, progs, ['r'], ['terminate', 'kill'], items=n, per_prog=per_n)
+        exp_n = expected_for(n)
+        for rec in landing.run_cases(ctx, cases_n, items=n):
+            kind = inject.KINDS[rec['prog']][2]
+            ctx.case((rec['prog'], rec['k'], rec['mode'], n), rec['k'] is not None,
+                     sample=dict(landing.describe(rec), items=n) if rec['k'] is not None and rec['k'] % 29 == 0 else None)
+            ctx.count(f'{kind}:{rec["mode"]}:items={n}')
+            landing.judge(ctx, rec, lambda c, r_, e=exp_n: evaluate(c, r_, e), items=n)
     forward_correspondence(ctx)
     sess = inject.Session()
     try:
